@@ -21,20 +21,28 @@ PROPS = {
         "undecided": ["write() refusing >4GiB without large_file and poisoning the writer; finalize() ZIP64 end-record decision (unit U7)", "get_directory_counts: ZIP64 locator probe and archive offset (unit U8)"],
     },
     "C04": {
-        "units": ["U9_crc"],
+        "units": ["U9_crc", "U8_entry_readers"],
         "kani": [],
-        "technique": "Verus contracts on Crc32Reader (real text, extracted each run) + history lemma",
-        "level_text": "Deductive proof, for every inner reader, every buffer size (incl. zero-length) and every short-read schedule, that Crc32Reader::read hashes exactly the bytes it returns and can answer Ok(0) on a non-empty buffer only if the accumulated CRC equals the declared one or the entry is AE-2; a checked lemma lifts this to any history of reads ending at end-of-file.",
-        "level_note": "crc32fast assumed to compute CRC-32 (uninterpreted crc32); the wiring of Crc32Reader around every decoder in read.rs (make_reader / is_ae2_encrypted) is decided only once unit U8 is built - until then listed under undecided_clauses in the evidence",
-        "undecided": ["make_reader wraps every decoding variant in Crc32Reader with the entry's declared CRC and the AE-2 flag (unit U8, not built yet)"],
+        "technique": "Verus contracts on Crc32Reader and on the reader-stack constructors (real text, extracted each run) + history lemma",
+        "level_text": "Deductive proof, for every inner reader, every buffer size (incl. zero-length) and every short-read schedule, that Crc32Reader::read hashes exactly the bytes it returns and can answer Ok(0) on a non-empty buffer only if the accumulated CRC equals the declared one or the entry is AE-2 (a checked lemma lifts this to any history of reads ending at end-of-file); that make_reader wraps EVERY decoding variant in a fresh Crc32Reader holding the entry's declared CRC and the AE-2 flag, that the flag is true exactly for an AES reader with vendor version AE-2, that ZipFile::get_reader / read and the streaming constructor go through that stack, and that only the raw reader bypasses it.",
+        "level_note": "crc32fast assumed to compute CRC-32 (uninterpreted crc32); decompressors and the crypto readers are opaque adapters with assumed contracts in this unit (AES reader proved in U11, ZipCrypto byte level by Kani); by_index/by_name passing the central-directory CRC to the stack is unit U8b (archive level)",
+        "undecided": ["by_index_with_optional_password hands the central directory's crc32 and method to make_crypto_reader/ZipFile (archive-level unit, not built yet)"],
     },
-    "C03": {
-        "units": ["U4_end_records", "U6_central_parser"],
+    "C05": {
+        "units": ["U4_end_records", "U6_central_parser", "U8_entry_readers"],
         "kani": ["types"],
-        "technique": "Verus contracts on the end-record search/parsers against APPNOTE spec functions; Kani complete harness for the attribute-to-mode table",
-        "level_text": "Deductive proof over all byte strings and all I/O outcomes: the end-of-central-directory search returns the last signature occurrence whose record fits (so trailing garbage is tolerated), every field equals the APPNOTE 4.3.16/4.3.15/4.3.14 decode of the bytes at that offset, the ZIP64 forward search returns the first record at or after the nominal offset, and an error is returned only on a device fault or when no well-formed record exists in the window. unix_mode() is proved for all 2^32 attribute words x 256 systems with Kani.",
-        "level_note": "I/O model of contracts/shims/io.rs; directory walk, name lookup and data offsets (unit U8) are not under contract yet and are listed as undecided; Vec<u8>::from_cp437 is an assumed contract in Verus (iterator adapters) decided by the Kani cp437 group; derived PartialEq assumed structural; decoders assumed",
-        "undecided": ["directory walk, names_map last-wins, by_name/by_index not-found, find_content data offset (units U6/U8)", "entry content equals original bytes (decoders assumed, CRC layer = C04)"],
+        "technique": "Verus panic-freedom and termination obligations on the parsers under the arbitrary-bytes I/O model",
+        "level_text": "Deductive proof over ARBITRARY byte strings (the device model puts no constraint on content) and all I/O outcomes that the end-record searches, the central-header parser, the extra-field walk, the local-header locator, the crypto/decoder stack constructors, the streaming local-header reader and the drain-on-drop loop never overflow, index out of range, unwrap a None/Err or reach a panic!, and that every loop terminates (decreases clauses); allocations are bounded by 16-bit length fields read from the input. The method-99 and password-unwrap panics fixed in /repo are pinned by named clauses.",
+        "level_note": "memory bound while opening (Vec::with_capacity from the declared count) and the directory loop are in ZipArchive::new (archive-level unit, not built yet); AES reader underflow guard is unit U11; decompressor robustness on garbage is assumed; to_time totality is the Kani harness",
+        "undecided": ["ZipArchive::new: capacity bound and directory loop; by_index/by_name error mapping (archive-level unit)", "AesReader::new underflow guard, AesReaderValid::read (unit U11)", "ZipWriter::new_append (unit U7)"],
+    },
+    "C10": {
+        "units": ["U8_entry_readers"],
+        "kani": [],
+        "technique": "Verus contracts on read_zipfile_from_stream and the drain loop of Drop for ZipFile against the APPNOTE local-header decode",
+        "level_text": "Deductive proof that the streaming reader answers end-of-entries exactly at a central-directory signature, decodes a local header per APPNOTE 4.3.7 (name by the UTF-8 flag, sizes through the same ZIP64 extra-field walk as the seekable reader, DOS time, method), refuses encrypted and data-descriptor entries with an error, bounds the content by the declared compressed size at the offset after name and extra field, wraps it in the CRC-checking stack, and that dropping an entry drains the underlying stream to exactly the end of its compressed data (limit reaches 0) however much was consumed and however the source splits its reads, unless the source ends or faults.",
+        "level_note": "agreement with the seekable reader is through the shared spec functions (dec_lfh / dec_cdh agree on the fields the writer duplicates: C02); the visitor loop of ZipStreamReader::visit (unit U12) is not under contract yet; Drop::drop is verified as an inherent method with the representation invariant as precondition (T14)",
+        "undecided": ["ZipStreamReader::visit: files then one metadata callback per central record, in order (unit U12)"],
     },
     "C06": {
         "units": ["U3_paths"],
